@@ -34,7 +34,6 @@ const char *FN[] = {"none", "eof", "rst", "stall", "cancel-active", "cancel-queu
 const char *AN[] = {"none", "cancel-next", "new-request", "free-conn", "break+teardown"};
 
 const char *K_UAF_CLEANUP = "asan:heap-use-after-free@evhttp_connection_cb_cleanup";
-const char *K_RETRY_TIMER = "C27/fatal-event_queue_remove_timeout";
 const char *K_STUCK = "C27/request-after-exhausted-retries-never-dispatched";
 
 struct Plan {
@@ -66,8 +65,6 @@ struct RunA {
     switch (p.act) {
       case A_CANCEL_NEXT: { size_t j = (size_t)r->idx + 1; if (j < w->recs.size()) me->cancel(w->recs[j], "in-callback"); break; }
       case A_NEW_REQ:
-        // listed finding: once the retries are used up, retry_cnt stays non-zero and evhttp_make_request() only queues
-        if (me->exhausted && verif_known(K_STUCK)) { verif_known_skipped(K_STUCK); break; }
         if (w->evcon) me->make(false); break;
       case A_FREE_CONN:
         // listed finding: when the callback runs from the connect-failure path (request object with status 0), the library goes on
@@ -80,8 +77,6 @@ struct RunA {
   }
   void cancel(ReqRec *r, const char *where) {
     if (!r->req || r->cb_calls || r->cancelled || r->abandoned) return;   // documented: not after its callback ran
-    // listed finding: cancelling the request at the head of the queue while the retry timer is pending re-initialises that timer
-    if (p.retries > 0 && (p.refuse_first > 0 || p.refuse_after_fault) && verif_known(K_RETRY_TIMER)) { verif_known_skipped(K_RETRY_TIMER); return; }
     TR("    %s: evhttp_cancel_request(#%d)", where, r->idx);
     struct evhttp_request *q = r->req; r->req = nullptr; r->cancelled = true;
     evhttp_cancel_request(q);
